@@ -167,6 +167,11 @@ fn sections(t: CTy, tier: Tier) -> Vec<(String, Section)> {
     out.push(("A-B".into(), vec![("A", a()), ("B", b()), ("C", CE::Sub(bx(r("A")), bx(r("B"))))]));
     out.push(("max(A+1,B)".into(), vec![("A", a()), ("B", b()), ("C", CE::Max(vec![CE::Add(bx(r("A")), bx(CE::Lit(1))), r("B")]))]));
     out.push(("min(A,B)+1".into(), vec![("A", a()), ("B", b()), ("C", CE::Add(bx(CE::Min(vec![r("A"), r("B")])), bx(CE::Lit(1))))]));
+    // one kind nested directly in the other: must not be flattened into a single list
+    out.push(("max(A,min(B,5))".into(), vec![("A", a()), ("B", b()), ("C", CE::Max(vec![r("A"), CE::Min(vec![r("B"), CE::Lit(5)])]))]));
+    out.push(("min(max(A,2),B)".into(), vec![("A", a()), ("B", b()), ("C", CE::Min(vec![CE::Max(vec![r("A"), CE::Lit(2)]), r("B")]))]));
+    out.push(("max(min(A,B),1)".into(), vec![("A", a()), ("B", b()), ("C", CE::Max(vec![CE::Min(vec![r("A"), r("B")]), CE::Lit(1)]))]));
+    out.push(("min(3,max(A,B),5)".into(), vec![("A", a()), ("B", b()), ("C", CE::Min(vec![CE::Lit(3), CE::Max(vec![r("A"), r("B")]), CE::Lit(5)]))]));
     out.push(("max(A,B,2)".into(), vec![("A", a()), ("B", b()), ("C", CE::Max(vec![r("A"), r("B"), CE::Lit(2)]))]));
     out.push(("max(P::A,Q::B) direct".into(), vec![("C", CE::Max(vec![a(), b()]))]));
     // declared in an order where a later const is referenced by an earlier-named one
